@@ -108,18 +108,23 @@ def width_demands(prog: Program, rep, RID: str):
     (stDAG); per condensation edge the number of original inter-SCC edges minus the ignored ones, un-capped; 1 per non-trivial SCC
     unless all its member edges are ignored (stDiGraph)."""
     f = prog.own_method("stDAG", "get_width")
+    from sa.mir import comprehensionise
     ok = False
-    for st in walk_no_nested(f.node):
+    seen_dc = []
+    for st in walk_no_nested(ast.Module(body=comprehensionise(f.node.body), type_ignores=[])):
         if isinstance(st, ast.Assign) and isinstance(st.value, ast.DictComp):
             dc = st.value
+            seen_dc.append(dc)
             if norm(dc.value) == "1" and norm(dc.key) == norm(dc.generators[0].target) and norm(dc.generators[0].iter) in ("self.edges()", "self.edges") \
                     and len(dc.generators[0].ifs) == 1 and isinstance(dc.generators[0].ifs[0], ast.Compare) and isinstance(dc.generators[0].ifs[0].ops[0], ast.NotIn):
                 ok = True
     key = "stDAG.get_width:demand"
     if ok:
         rep.ok(RID, key, "weight 1 for every edge outside the ignore set, nothing else", f.loc())
+    elif seen_dc:
+        rep.violation(RID, key, f"the weight function of the antichain computation is `{norm(seen_dc[0])[:90]}`, not {{e: 1 for every non-ignored edge}}", f.loc())
     else:
-        rep.violation(RID, key, "the weight function of the antichain computation is not {e: 1 for every non-ignored edge}", f.loc())
+        raise AnalysisError("stDAG.get_width: the weight function of the antichain computation (a dict over self.edges()) was not found")
     g = prog.own_method("stDiGraph", "get_width")
     hit = None
     for lp in [n for n in walk_no_nested(g.node) if isinstance(n, ast.For)]:
